@@ -60,15 +60,18 @@ theorem op_sem (refs : Refs) (f : Filter) (dv : DVal) (frs : Frs) :
               · simp [h1, h2, h3, h4, h5]
     | str v =>
       simp only [holds, hact, accept, hact']
-      by_cases h1 : (f.op == "contains") = true
-      · simp [h1]
-      · by_cases h2 : (f.op == "!contains") = true
-        · simp [h1, h2]
-        · by_cases h3 : (f.op == "eq") = true
-          · cases hargs : f.args <;> simp [h1, h2, h3]
-          · by_cases h4 : (f.op == "ne") = true
-            · cases hargs : f.args <;> simp [h1, h2, h3, h4]
-            · simp [h1, h2, h3, h4]
+      cases hargs : f.args with
+      | nil => simp
+      | cons a0 as0 =>
+        by_cases h1 : (f.op == "contains") = true
+        · simp [h1]
+        · by_cases h2 : (f.op == "!contains") = true
+          · simp [h1, h2]
+          · by_cases h3 : (f.op == "eq") = true
+            · simp [h1, h2, h3]
+            · by_cases h4 : (f.op == "ne") = true
+              · simp [h1, h2, h3, h4]
+              · simp [h1, h2, h3, h4]
     | u64 v =>
       simp only [holds, holds.cmp, hact, accept, hact']
       cases hargs : f.args with
